@@ -556,6 +556,13 @@ class Frames:
                         if cv == 3:
                             return Vec(b.b, "T", base=(b.a, b.b))
                         return Vec(b.b, "D")      # an axis of frame a, expressed in frame b
+                if len(el) == 2 and isinstance(el[1], ast.Slice) and not isinstance(el[0], ast.Slice) and u(el[0]) not in ("np.newaxis", "None"):
+                    rv = const(el[0])
+                    hi = const(el[1].upper) if el[1].upper is not None else 4
+                    if isinstance(rv, int) and rv < 3 and isinstance(hi, int) and hi <= 3:
+                        # row k of the rotation a->b  ==  column k of its transpose: axis k of frame b expressed in frame a
+                        return Vec(b.a, "D")
+                    return None
                 if len(el) == 3:
                     # mesh2origin[np.newaxis, :3, 3]
                     cv = const(el[2])
